@@ -75,6 +75,7 @@ def apply(ctx, W):
             ("final(semantic).modules@.dom() == old(semantic).modules@.dom()", ("C12", "C10"), "build-keeps-modules"),
             ("registry_frame(&old(semantic).type_registry, &final(semantic).type_registry, *resolvee_path)", ("C10", "C19"), "attempt-frame"),
             ("keys_kept(&old(semantic).type_registry, &final(semantic).type_registry)", ("C10", "C14"), "keys-kept"),
+            ("vftable_functions is None && first_base is None ==> res is Ok", ("C03",), "no-vftable-no-error"),
             ("""res is Ok ==> vftable_result_ok(&final(semantic).type_registry, *resolvee_path,
                     (match first_base { Some(r) => Some(*r), None => None::<Region> }), vftable_functions, res->Ok_0)""", ("C06",), "vftable-result"),
             ("final(semantic).type_registry.types@.dom() == old(semantic).type_registry.types@.dom()", ("C10",), "attempt-keeps-key-set"),
